@@ -16,7 +16,7 @@
 
 use super::c14::{
     abstract_matrix, adjoint, assignments, base_params, build_by_builder, build_direct, check_gate_case, eval_entries,
-    generic_thetas, judge, max_diff, random_placement, real_gate_unitary, reference_unitary, rejudge_gate, thetas_of,
+    generic_thetas, judge, max_diff, real_gate_unitary, reference_unitary, rejudge_gate, thetas_of,
     unitarity_defect, GateCase, Mat, GATES,
 };
 use crate::runner::{Outcome, Summary, Violation};
